@@ -113,7 +113,7 @@ real rules by the harness, proved for the rules modelled in `MdIt/Block/Rules`) 
 
 /-- the fields of the state the loop itself depends on are as on entry -/
 def BState.FrameEq (s s' : BState) : Prop :=
-  s'.lines = s.lines ∧ s'.lineMax = s.lineMax ∧ s'.blkIndent = s.blkIndent ∧ s'.level = s.level
+  (s'.lines = s.lines ∧ s'.listIndent = s.listIndent) ∧ s'.lineMax = s.lineMax ∧ s'.blkIndent = s.blkIndent ∧ s'.level = s.level
 
 /-- what every call made by the loop guarantees to the rule: the line tables carry their sentinel entry,
     `line` is a non-empty, not outdented line inside the range, the range ends inside the tables, and the
@@ -124,6 +124,8 @@ structure CallCtx (P : BState → Nat → Prop) (s : BState) (line endLine : Nat
   lt : line < endLine
   le : endLine ≤ s.lineMax
   here : ∃ l, s.lines[line]? = some l ∧ l.empty = false ∧ s.blkIndent ≤ l.sCount
+  /-- the loop has set `state.line` to the line it dispatches on -/
+  cur : s.line = line
   extra : P s endLine
 
 /-- `P` reads only the frame fields -/
@@ -131,10 +133,10 @@ def FrameClosed (P : BState → Nat → Prop) : Prop :=
   ∀ s s' e, s.FrameEq s' → P s e → P s' e
 
 theorem CallCtx.transfer {P : BState → Nat → Prop} (hP : FrameClosed P) {s s' : BState} {line endLine : Nat}
-    (h : CallCtx P s line endLine) (hf : s.FrameEq s') : CallCtx P s' line endLine :=
-  ⟨by rw [hf.1, hf.2.1]; exact h.len, h.lt, by rw [hf.2.1]; exact h.le,
-   by obtain ⟨l, h1, h2, h3⟩ := h.here; exact ⟨l, by rw [hf.1]; exact h1, h2, by rw [hf.2.2.1]; exact h3⟩,
-   hP _ _ _ hf h.extra⟩
+    (h : CallCtx P s line endLine) (hf : s.FrameEq s') (hl : s'.line = s.line) : CallCtx P s' line endLine :=
+  ⟨by rw [hf.1.1, hf.2.1]; exact h.len, h.lt, by rw [hf.2.1]; exact h.le,
+   by obtain ⟨l, h1, h2, h3⟩ := h.here; exact ⟨l, by rw [hf.1.1]; exact h1, h2, by rw [hf.2.2.1]; exact h3⟩,
+   by rw [hl]; exact h.cur, hP _ _ _ hf h.extra⟩
 
 /-- the contract of a rule, for the calls the loop makes (K1–K4) -/
 structure RuleOK (P : BState → Nat → Prop) (r : BRule) : Prop where
